@@ -329,7 +329,13 @@ pub struct OrderTrack {
     pub fee_escrowed: u128,
     pub was_approved: bool,
     pub converted: bool,
+    /// a match moved the same denomination on behalf of this order and of its counterpart,
+    /// so per-order attribution of fund movements is no longer possible (two-order sum only)
+    pub entangled: bool,
+    pub entangle_count: u32,
     pub post_conversion_calls: u32,
+    /// bids: the log an event-log (legacy) record of this bid would hold
+    pub events: Vec<Ev>,
 }
 
 #[derive(Clone, Debug, Default)]
@@ -410,10 +416,15 @@ impl Judge {
         if prop != self.prop {
             return;
         }
+        let signature = format!("{}|{}", clause, feature);
+        // one report per structural signature and case
+        if self.violations.iter().any(|v| v.signature == signature) {
+            return;
+        }
         self.violations.push(Violation {
             prop,
             clause,
-            signature: format!("{}|{}", clause, feature),
+            signature,
             detail,
             step: self.step_no,
         });
@@ -746,6 +757,18 @@ impl Runner {
             Req::Match { ask_id, bid_id, .. } => {
                 // quote movements belong to the bid, base / convertible movements to the ask
                 let quote_denom = before.bids.get(bid_id).map(|b| b.quote_denom.clone());
+                let overlap = match (before.asks.get(ask_id), before.bids.get(bid_id), &before.cfg) {
+                    (Some(a), Some(b), Some(c)) => b.quote_denom == a.base || b.quote_denom == c.base,
+                    _ => false,
+                };
+                if overlap {
+                    let a = t.asks.entry(ask_id.clone()).or_default();
+                    a.entangled = true;
+                    a.entangle_count += 1;
+                    let b = t.bids.entry(bid_id.clone()).or_default();
+                    b.entangled = true;
+                    b.entangle_count += 1;
+                }
                 for m in &out.moves {
                     let signed = if m.to == CONTRACT {
                         Int256::from(m.amount)
@@ -873,6 +896,34 @@ impl Runner {
                 }
             }
             _ => {}
+        }
+        // the event log a legacy-format record would have accumulated
+        for id in &bid_ids {
+            if let Some(b0) = before.bids.get(id) {
+                let (ab, aq, af) = match after.bids.get(id) {
+                    Some(b1) => (b1.acc_base, b1.acc_quote, b1.acc_fee),
+                    None => (b0.size, b0.quote, b0.fee_amount()),
+                };
+                let (db, dq, df) = (ab.saturating_sub(b0.acc_base), aq.saturating_sub(b0.acc_quote), af.saturating_sub(b0.acc_fee));
+                let e = t.bids.entry(id.clone()).or_default();
+                let feeo = |x: u128| if b0.fee.is_some() { Some(x) } else { None };
+                match req {
+                    Req::Match { price, .. } => {
+                        let (gross, paid) = match exp.match_facts.as_ref() {
+                            Some(f) if f.gross <= dq => (f.gross, df.min(exp.alts.first().map(|a| a.bid_fee_paid).unwrap_or(df))),
+                            _ => (dq, df),
+                        };
+                        e.events.push(Ev::Fill { base: db, fee: feeo(paid), quote: gross, price: price.clone() });
+                        if dq > gross || df > paid {
+                            e.events.push(Ev::Refund { fee: feeo(df - paid), quote: dq - gross });
+                        }
+                    }
+                    Req::CancelBid { .. } | Req::ExpireBid { .. } | Req::RejectBid { .. } => {
+                        e.events.push(Ev::Reject { base: db, fee: feeo(df), quote: dq });
+                    }
+                    _ => {}
+                }
+            }
         }
         for id in &ask_ids {
             if before.asks.contains_key(id) && !after.asks.contains_key(id) {
